@@ -282,9 +282,13 @@ Definition matrix_add (terms : list mexpr) : res mexpr :=
 (* ---------------------------------------------------------------- matrix_mul.cpp *)
 Inductive marg := AScal (k : ent) | AMat (e : mexpr).
 
-Definition mul_diag_diag (a b : list ent) : res (list ent) := zipc emul a b 0.
+(* the four folding helpers throw DomainError when their operands do not fit (adjacent factors are the only ones
+   check_matching_mul_sizes compares; a dropped identity matrix of symbolic size can hide a mismatch) *)
+Definition mul_diag_diag (a b : list ent) : res (list ent) :=
+  if negb (Nat.eqb (length a) (length b)) then ErrExn EXN_DOMAIN else zipc emul a b 0.
 
 Definition mul_dense_dense (am an : nat) (av : list ent) (bm bn : nat) (bv : list ent) : res (nat * nat * list ent) :=
+  if negb (Nat.eqb an bm) then ErrExn EXN_DOMAIN else
   do p <- tab2 am bn (fun i j =>
             foldM (fun acc k => do x <- rd av (i * an + k); do y <- rd bv (k * bn + j); Ok (eadd acc (emul x y)))
                   (seq 0 an) e0);
@@ -292,10 +296,12 @@ Definition mul_dense_dense (am an : nat) (av : list ent) (bm bn : nat) (bv : lis
 
 (* product[i*ncols+j] = mul(product[i*ncols+j], A[i]) over the copy of B *)
 Definition mul_diag_dense (a : list ent) (bm bn : nat) (bv : list ent) : res (nat * nat * list ent) :=
+  if negb (Nat.eqb (length a) bm) then ErrExn EXN_DOMAIN else
   do p <- tab2 bm bn (fun i j => do x <- rd a i; do y <- rd bv (i * bn + j); Ok (emul y x));
   Ok (bm, bn, p).
 
 Definition mul_dense_diag (am an : nat) (av : list ent) (b : list ent) : res (nat * nat * list ent) :=
+  if negb (Nat.eqb (length b) an) then ErrExn EXN_DOMAIN else
   do p <- tab2 am an (fun i j => do x <- rd b j; do y <- rd av (i * an + j); Ok (emul y x));
   Ok (am, an, p).
 
